@@ -130,6 +130,23 @@ theorem step_forward {s s' : State} (h : step s .forward = some s') :
   injection h with h
   exact ⟨ts, r, hl, hc, h.symm⟩
 
+theorem step_forwardDrop {s s' : State} (h : step s .forwardDrop = some s') :
+    ∃ ts r, s.lpc = .forwarding ts r ∧ s.qclosed r.queue = true ∧
+      s' = { s with dropped := s.dropped ++ [r], lpc := .tickLoop ts } := by
+  simp only [step] at h
+  split at h <;> try contradiction
+  rename_i ts r hl
+  split at h <;> try contradiction
+  rename_i hc
+  injection h with h
+  exact ⟨ts, r, hl, hc, h.symm⟩
+
+theorem step_closeQ {s s' : State} {q : Nat} (h : step s (.closeQ q) = some s') :
+    s' = { s with qclosed := fun x => if x = q then true else s.qclosed x } := by
+  simp only [step] at h
+  injection h with h
+  exact h.symm
+
 theorem step_qRecv {s s' : State} {q : Nat} (h : step s (.qRecv q) = some s') :
     ∃ x rest, s.q q = x :: rest ∧ s' = { s with q := updQ s.q q rest } := by
   simp only [step] at h
@@ -174,7 +191,8 @@ theorem cP_cons (a : Nat) (r : Req) (l : List Req) : cP a (r :: l) = cP a l + if
 theorem cP_perm (a : Nat) {l1 l2 : List Req} (h : l1.Perm l2) : cP a l1 = cP a l2 := h.countP_eq _
 
 def idCount (s : State) (a : Nat) : Nat :=
-  cP a s.senders + cP a s.reqChan + cP a s.heap.toList + cP a (inflight s.lpc) + cP a (s.forwarded.map (·.1))
+  cP a s.senders + cP a s.reqChan + cP a s.heap.toList + cP a (inflight s.lpc) + cP a (s.forwarded.map (·.1)) +
+    cP a s.dropped
 
 theorem ids_bump (c n a : Nat) (h : c = if a < n then 1 else 0) :
     c + (if n = a then 1 else 0) = if a < n + 1 then 1 else 0 := by
@@ -342,6 +360,26 @@ theorem invA_step {s s' : State} {a : Act} (h : InvA s) (hs : step s a = some s'
       · simp [hr']
       · simp [hr']
       · simp at hr'
+  | forwardDrop =>
+    obtain ⟨ts, r, hl, hc, rfl⟩ := step_forwardDrop hs
+    have hlp := h.lpcOk
+    rw [hl] at hlp
+    refine ⟨h.heapOk, h.grid, hlp.1, h.fwdOk, ?_, ?_⟩
+    · intro a
+      have := h.ids a
+      simp only [idCount, hl, inflight, cP_append, cP_cons, cP_nil] at this ⊢
+      rw [← this]; omega
+    · intro r' hr'
+      apply h.sentLe r'
+      simp only [outstanding, hl, inflight, List.mem_append] at hr' ⊢
+      rcases hr' with (((hr' | hr') | hr') | hr')
+      · simp [hr']
+      · simp [hr']
+      · simp [hr']
+      · simp at hr'
+  | closeQ q =>
+    have := step_closeQ hs; subst this
+    exact ⟨h.heapOk, h.grid, h.lpcOk, h.fwdOk, h.ids, h.sentLe⟩
   | qRecv q =>
     obtain ⟨x, rest, hq, rfl⟩ := step_qRecv hs
     exact ⟨h.heapOk, h.grid, h.lpcOk, h.fwdOk, h.ids, h.sentLe⟩
@@ -426,6 +464,8 @@ theorem blocked_mono {s s' : State} {a : Act} (hs : step s a = some s') (hb : s'
     obtain ⟨ts, _, hcase⟩ := step_tickTest hs
     rcases hcase with ⟨_, rfl⟩ | ⟨top, _, _, rfl⟩ | ⟨top, _, _, rfl⟩ <;> exact hb
   | forward => obtain ⟨ts, r, _, _, rfl⟩ := step_forward hs; exact hb
+  | forwardDrop => obtain ⟨ts, r, _, _, rfl⟩ := step_forwardDrop hs; exact hb
+  | closeQ q => have := step_closeQ hs; subst this; exact hb
   | qRecv q => obtain ⟨x, rest, _, rfl⟩ := step_qRecv hs; exact hb
   | tickFire => obtain ⟨_, rfl⟩ := step_tickFire hs; exact hb
   | delay d =>
@@ -583,6 +623,24 @@ theorem invB_step {s s' : State} {a : Act} (hA : InvA s) (h : InvB s) (hs : step
               rw [heq, Nat.add_mod_right] at hmod
               exact hmod
             · left; omega
+  | forwardDrop =>
+    obtain ⟨ts, r, hl, hc, rfl⟩ := step_forwardDrop hs
+    have hts := h.tsNow
+    rw [hl] at hts
+    simp only at hts
+    have hbusy := h.busy (Or.inr (by rw [hl]; simp))
+    have hnp := h.noPend (by rw [hl]; simp)
+    refine ⟨fun _ => hbusy, fun _ => hnp, hts, h.fresh, ?_, h.fwdLate⟩
+    intro r' hr'
+    have hld : lastDone { s with dropped := s.dropped ++ [r], lpc := .tickLoop ts } = lastDone s := by
+      simp [lastDone, hl]
+    rw [hld]
+    apply h.due r'
+    simp only [inflight, List.append_nil, List.mem_append] at hr' ⊢
+    exact Or.inl hr'
+  | closeQ q =>
+    have := step_closeQ hs; subst this
+    exact ⟨h.busy, h.noPend, h.tsNow, h.fresh, h.due, h.fwdLate⟩
   | qRecv q =>
     obtain ⟨x, rest, hq, rfl⟩ := step_qRecv hs
     exact ⟨h.busy, h.noPend, h.tsNow, h.fresh, h.due, h.fwdLate⟩
@@ -773,6 +831,16 @@ theorem invC_step {s s' : State} {a : Act} (hA : InvA s) (hB : InvB s) (h : InvC
           have := hlp.1; have := hlp.2.1
           omega
         · exact hlp.2.2 r' hr'
+  | forwardDrop =>
+    obtain ⟨ts, r, hl, hc, rfl⟩ := step_forwardDrop hs
+    apply invC_of_subset h
+    · rfl
+    · intro r' hr'
+      simp only [outstanding, hl, inflight, List.mem_append, List.append_nil] at hr' ⊢
+      exact Or.inl hr'
+  | closeQ q =>
+    have := step_closeQ hs; subst this
+    exact ⟨h.nn, h.sorted, h.below⟩
   | qRecv q =>
     obtain ⟨x, rest, hq, rfl⟩ := step_qRecv hs
     exact ⟨h.nn, h.sorted, h.below⟩
